@@ -204,6 +204,12 @@ pub fn digit4_twin() { m1(); }
 #[instrument(level = 5)] pub fn digit5() { m1(); }
 pub fn digit5_twin() { m1(); }
 
+// ---- a parameter that happens to be called `_self` (the name old async-trait gave its receiver) in a plain function
+#[instrument] pub fn under_self(_self: u64, n: u64) -> u64 { m1(); _self + n }
+pub fn under_self_twin(_self: u64, n: u64) -> u64 { m1(); _self + n }
+#[instrument] pub async fn under_self_async(_self: u64, n: u64) -> u64 { m1(); _self + n }
+pub async fn under_self_async_twin(_self: u64, n: u64) -> u64 { m1(); _self + n }
+
 pub mod generated;
 
 // ---- async-trait style with a qualified path to Box::pin (what macro-generated code writes), and an unboxed async block
